@@ -732,7 +732,7 @@ func runC18(c *Ctx) {
 	}
 
 	// ---------------------------------------------------------------- R8
-	c.rule("R8", "the address helpers do what their callers rely on: ports parse as 16-bit decimals (out of range is an error, never truncated), joinPort is JoinHostPort(host, decimal port), tryRemovePort is SplitHostPort's host; the default port reaches parseDialAddr as given; the parsed URL's host is never rewritten", 5)
+	c.rule("R8", "the address helpers do what their callers rely on: ports parse as 16-bit decimals (out of range is an error, never truncated), joinPort is JoinHostPort(host, decimal port), tryRemovePort is SplitHostPort's host; the default port reaches parseDialAddr as given; the parsed URL's host is never rewritten", 6)
 	{
 		if f := c.fn(relUpstream, "", "trySplitHostPort"); f != nil {
 			c.see(f)
@@ -768,6 +768,50 @@ func runC18(c *Ctx) {
 				good = true
 			})
 			c.check(good, "helper:trySplitHostPort", f.Pos(), "port = uint16(ParseUint(port, 10, 16)), error returned", why)
+			// "no port" is reported as 0 and as nothing else: parseDialAddr's `dialPort != 0` / `port == 0` tests and
+			// parseBootstrapAp's default rely on it (round 12: a default-port parameter made dial_addr without a port
+			// overwrite the URL's explicit port)
+			{
+				bad := ""
+				var leaves func(v ssa.Value, depth int)
+				seenPhi := map[*ssa.Phi]bool{}
+				leaves = func(v ssa.Value, depth int) {
+					switch x := v.(type) {
+					case *ssa.Phi:
+						if seenPhi[x] || depth > 8 {
+							return
+						}
+						seenPhi[x] = true
+						for _, e := range x.Edges {
+							leaves(e, depth+1)
+						}
+					case *ssa.Convert:
+						if ex, ok := x.X.(*ssa.Extract); ok {
+							if cl, ok := ex.Tuple.(*ssa.Call); ok && callName(cl) == "strconv.ParseUint" {
+								return
+							}
+						}
+						bad = exprStr(v)
+					case *ssa.Const:
+						if n, ok := constInt(x); !ok || n != 0 {
+							bad = exprStr(v)
+						}
+					default:
+						bad = exprStr(v)
+					}
+				}
+				n := 0
+				for _, ret := range returnsOf(f) {
+					rv := returnedValues(ret)
+					if len(rv) != 3 || !isNilConst(rv[2]) {
+						continue
+					}
+					n++
+					leaves(rv[1], 0)
+				}
+				c.check(n > 0 && bad == "", "helper:trySplitHostPort:no-port-is-zero", f.Pos(), "the returned port is the parsed port or 0",
+					"trySplitHostPort returns "+bad+" as the port of an address without one: the callers' 'has no port' tests (dialPort != 0, port == 0) no longer see it, a dial_addr without a port overwrites the URL's explicit port")
+			}
 		}
 		checkSplitHostIsNameOrIP(c)
 		if f := c.fn(relUpstream, "", "joinPort"); f != nil {
